@@ -123,7 +123,7 @@ func c06(w *core.World, r *core.Report) {
 	{
 		id := core.Param(getTx, "id")
 		n := 0
-		for _, ret := range core.Returns(getTx) {
+		for _, ret := range core.EffectiveReturns(getTx) {
 			if len(ret.Results) < 1 || core.IsNilConst(core.ReturnValues(ret)[0]) {
 				continue
 			}
@@ -136,7 +136,7 @@ func c06(w *core.World, r *core.Report) {
 			ev := errorOperand(ret)
 			r.Check(ev != nil && core.IsNilConst(ev), "ID-BEFORE-EFFECT", core.Site(getTx, "return transaction error"), w.InstrPos(ret), "success return carries a nil error")
 		}
-		for _, ret := range core.Returns(getTx) {
+		for _, ret := range core.EffectiveReturns(getTx) {
 			if len(ret.Results) >= 1 && core.IsNilConst(core.ReturnValues(ret)[0]) {
 				ev := errorOperand(ret)
 				r.Check(ev != nil && mayBeNonNil(w, ev, 0) && !core.IsNilConst(ev), "ID-BEFORE-EFFECT", core.Site(getTx, "return mismatch"), w.InstrPos(ret), "a mismatch must be reported with a non-nil error (callers test err)")
@@ -151,6 +151,9 @@ func c06(w *core.World, r *core.Report) {
 	r.Rule("EXCLUSIVE", 3, "every store of a non-nil value to TransactionManager.transaction anywhere in the repository is in RegisterTransaction, after tmMutex.Lock, on the false outcome of transactionOngoing(), and transactionOngoing() is 'slot != nil'; RegisterTransaction returns a nil guard with a non-nil error when a transaction is ongoing. Decides: a second transaction cannot be registered while one is open.")
 	nStores := 0
 	for _, f := range w.RepoFns {
+		if core.IsInlined(f) {
+			continue // an unexported setter of the slot: its store is judged in the functions it is inlined into
+		}
 		for _, st := range core.StoresToField(f, kTMSlot) {
 			if core.IsNilConst(st.Val) {
 				continue
@@ -161,8 +164,10 @@ func c06(w *core.World, r *core.Report) {
 				r.Viol("EXCLUSIVE", site, w.InstrPos(st), "the open-transaction slot is written outside RegisterTransaction")
 				continue
 			}
-			r.Check(guardedBySlot(st, false), "EXCLUSIVE", site+" guard", w.InstrPos(st), "must execute only when the slot was found empty (slot == nil, directly or through a predicate such as transactionOngoing())")
-			r.Check(lockedBefore(st, "datastore/types.TransactionManager.tmMutex"), "EXCLUSIVE", site+" lock", w.InstrPos(st), "must execute with tmMutex held (Lock before, Unlock deferred)")
+			core.WithHost(f, func() {
+				r.Check(guardedBySlot(st, false), "EXCLUSIVE", site+" guard", w.InstrPos(st), "must execute only when the slot was found empty (slot == nil, directly or through a predicate such as transactionOngoing())")
+				r.Check(lockedBefore(st, "datastore/types.TransactionManager.tmMutex"), "EXCLUSIVE", site+" lock", w.InstrPos(st), "must execute with tmMutex held (Lock before, Unlock deferred)")
+			})
 		}
 	}
 	if nStores == 0 {
@@ -657,36 +662,53 @@ var _ = types.Typ
 // slotTest: is cond a test of the open-transaction slot? occupiedOnTrue tells what its true outcome means. Either a
 // nil test of the slot itself, or a call of a predicate of package types whose every return is such a nil test.
 func slotTest(cond ssa.Value) (isTest, occupiedOnTrue bool) {
-	if x, nilOnTrue, ok := core.NilTest(cond); ok && core.FieldOf(x) == kTMSlot {
-		return true, !nilOnTrue
+	return slotPred(cond, 0)
+}
+
+// slotPred: v is, on every origin, a nil test of the slot or the result of a predicate whose every return is one
+// (transactionOngoing(), or transactionOngoing() forwarding to a predicate of a wrapper of the slot).
+func slotPred(v ssa.Value, depth int) (bool, bool) {
+	v, neg := core.StripNot(v)
+	os := core.Origins(v)
+	if len(os) == 0 || depth > 3 {
+		return false, false
 	}
-	v, neg := core.StripNot(cond)
-	for _, oc := range core.OriginCalls(v) {
-		g := oc.Call.StaticCallee()
-		if g == nil || g.Blocks == nil || g.Signature.Results().Len() != 1 {
-			continue
-		}
-		all, occ := true, false
-		rets := core.Returns(g)
-		for i, ret := range rets {
-			x, nilOnTrue, ok := core.NilTest(ret.Results[0])
-			if !ok || core.FieldOf(x) != kTMSlot {
-				all = false
-				break
+	first, occ := true, false
+	for _, o := range os {
+		var this bool
+		if x, nilOnTrue, ok := core.NilTest(o); ok {
+			if core.FieldOf(x) != kTMSlot {
+				return false, false
 			}
-			if i > 0 && occ != !nilOnTrue {
-				all = false
+			this = !nilOnTrue
+		} else if c, isCall := o.(*ssa.Call); isCall {
+			g := c.Call.StaticCallee()
+			if g == nil || g.Blocks == nil || g.Signature.Results().Len() != 1 {
+				return false, false
 			}
-			occ = !nilOnTrue
-		}
-		if all && len(rets) > 0 {
-			if neg {
-				occ = !occ
+			rets := core.Returns(g)
+			if len(rets) == 0 {
+				return false, false
 			}
-			return true, occ
+			for i, ret := range rets {
+				ok, o2 := slotPred(ret.Results[0], depth+1)
+				if !ok || (i > 0 && o2 != this) {
+					return false, false
+				}
+				this = o2
+			}
+		} else {
+			return false, false
 		}
+		if !first && this != occ {
+			return false, false
+		}
+		first, occ = false, this
 	}
-	return false, false
+	if neg {
+		occ = !occ
+	}
+	return true, occ
 }
 
 // guardedBySlot: x executes only when the slot was found occupied (want=true) / empty (want=false).
